@@ -6,12 +6,23 @@ import re
 m = json.load(open("seeded/MATRIX.json"))
 NOTES = {
     "C11-A": "first missed (regex flags ignored by the encoder); engine corrected, now caught",
-    "C15-A": "first missed; stand-in strengthened with near-duplicate style pairs",
-    "C15-B": "first missed; stand-in strengthened with every pair of strokes along one line of a 5-wide table",
+    "C15-A": "first missed; stand-in strengthened with near-duplicate style pairs; later also a complete syntactic obligation on the style key",
+    "C06-B": "caught by the stand-in; later also a complete syntactic obligation (the rich-text scan cannot end before the key is found)",
+    "C15-B": "first missed; stand-in strengthened with every pair of strokes along one line of a 5-wide table; later add_stroke was brought under "
+             "contract and its per-run cut assertion refutes this change",
+    "C15-C": "round 3; caught by the stand-in; later also by add_stroke's per-run cut assertion",
+    "C05-A": "caught by the stand-in; later IWAArchiveSegment.from_buffer was brought under contract (class of a merge message taken from base_message_index)",
+    "C09-C": "round 3; caught by the stand-in; later _initialize_table_data got a dataflow contract (uniqueness counted over every table of the document)",
+    "C16-B": "caught by the stand-in; later also by the complete syntactic obligation that every object add_table creates is made the target of a reference",
+    "C20-A": "first missed; stand-in strengthened with blank trailing rows/columns; later Converter.save was brought under contract (every cell written)",
+    "C03-B": "caught by the stand-in; later the default fill of add_row/add_column was brought under contract (exactly the new block is written)",
+    "C06-A": "caught by the stand-in; later storage_buffers was brought under contract (each row decoded from its own record)",
+    "C12-A": "caught by the stand-in; later Table.write was brought under contract (merge state looked up for the cell's own position)",
+    "C09-B": "caught by the stand-in; later also by Table.write's contract (header cache invalidated iff the write is in the header area), re-verified by C09",
+    "C17-A": "rebased after the C17 fix: commits; the refuted escape obligations are now replayed through the container fault-injection search",
     "C16-A": "rebased; first caught only by the deductive side; stand-in strengthened with partial queries",
-    "C20-A": "first missed; stand-in strengthened with blank trailing rows/columns",
     "C13-A": "rebased after fix 1caf0ad; needed the strict tie rule for decimal formats", "C13-B": "rebased after fix 1caf0ad",
-    "C03-A": "rebased twice (fix: commits touched the same lines)", "C04-A": "rebased after fix ba61402", "C17-A": "rebased after the C17 fix: commits",
+    "C03-A": "rebased twice (fix: commits touched the same lines)", "C04-A": "rebased after fix ba61402",
     "C17-C": "round 2; first missed (a module-level import shadowing the builtin NotImplementedError): the executor now resolves exception names "
              "through the module's imports and the stand-in flips every bit of the zip's structural records",
     "C14-C": "round 2; first missed (day of year wrong only in century non-leap years): the date domain now has every day of 33 years incl. "
